@@ -55,14 +55,25 @@ class C03(Check):
         for (f, nv, fe) in items:
             nv = need_vars(f, nv)
             n = rng.choice([1, 2, 3, 5, 8, 12, 20, 30])
-            cases.append({'f': f, 'n': n, 'nv': nv, 'cols': fml.gen_trace(rng, nv, n), 'times': list(range(n)), 'fe': fe})
+            c = {'f': f, 'n': n, 'nv': nv, 'cols': fml.gen_trace(rng, nv, n), 'times': list(range(n)), 'fe': fe}
+            if fe == 'stl' and rng.random() < 0.15:
+                from harness.c08 import spelling
+                sp = spelling(rng, f)
+                if sp:
+                    c['spell'] = sp
+            cases.append(c)
         return cases
+
+    def normalize(self, c):
+        if 'spell' in c and fml.to_sx(c['f']) != c['spell'].get('fkey'):
+            c = {k: v for k, v in c.items() if k != 'spell'}
+        return c
 
     def model_lines(self, c):
         return ['(past %s %s %d %s)' % (c.get('fe', 'stl'), fml.to_sx(c['f']), c['n'], fml.trace_sx(c['cols']))]
 
     def impl_cases(self, c):
-        case = online_case(c['f'], c['cols'], c['times'], c['nv'], pastify=True)
+        case = online_case(c['f'], c['cols'], c['times'], c['nv'], pastify=True, **c.get('spell', {}))
         if c.get('fe') == 'ltl':
             case['monitor'] = 'ltl-discrete'
         case['calls'] = case['calls'] + [['print']]
@@ -94,7 +105,10 @@ class C03(Check):
         spec = json.loads(json.dumps(spec))
         bad = [k for k in range(len(obs)) if spec[k] is not None and obs[k] != spec[k]]
         if bad:
-            return 'violation', dict(det, observed=obs, differs_at=bad)
+            # outside the guard the delay scheme itself is wrong (known finding); the model of the pastifier + online
+            # monitor reproduces exactly what that scheme computes, so anything else is a different defect
+            c['_as_model'] = (json.loads(json.dumps(on)) == obs)
+            return 'violation', dict(det, observed=obs, differs_at=bad, same_as_model_of_delay_scheme=c['_as_model'])
         mbad = [k for k in range(len(obs)) if spec[k] is not None and json.loads(json.dumps(on))[k] != spec[k]]
         if mbad and c['_guard']:
             return 'model-vs-spec', dict(det, differs_at=mbad)
@@ -105,7 +119,9 @@ class C03(Check):
 
     def signature(self, c, detail):
         sig = Check.signature(self, c, detail)
-        sig['shape'] = 'inside_guard' if c.get('_guard') else 'past_over_future'
+        guard = detail.get('guard_future_above_past', c.get('_guard')) if isinstance(detail, dict) else c.get('_guard')
+        as_model = detail.get('same_as_model_of_delay_scheme', c.get('_as_model')) if isinstance(detail, dict) else c.get('_as_model')
+        sig['shape'] = 'inside_guard' if guard else ('past_over_future' if as_model else 'past_over_future_not_as_modelled')
         sig['fe'] = c.get('fe', 'stl')
         return sig
 
